@@ -22,7 +22,8 @@ from ..common import sx
 NAME = "seqedit"
 
 TRIVIA = [" ", "  ", "\n    ", " # c\n    ", "\n", "\n  # c2\n  ", "\t"]
-ELEMS = ["1", "'a'", "[1, 2]", "(3)", "((4))", "f(1, 2)", "x", "{1: 2}", "(5, 6)", "-1", "a.b", "[\n 7,\n 8]"]
+ELEMS = ["1", "'a'", "[1, 2]", "(3)", "((4))", "f(1, 2)", "x", "{1: 2}", "(5, 6)", "-1", "a.b", "[\n 7,\n 8]",
+         '"""first\nsecond"""', "'''\\\nq\n'''"]        # one token that spans several lines (generated triple-quoted strings)
 CODES = ["X1", "X2", "[X3]", "(X4, X5)", "X6"]
 
 
@@ -237,7 +238,7 @@ def compare(case, obs, model_out):
     kind = case["kind"]
     want = PREFIX + "v = " + OPEN[kind] + render_model(case, o[1]) + CLOSE[kind] + "\n"
     if want != obs["new"]:
-        return [("text", ["C03", "C11", "C02", "C05"], f"model {want!r} impl {obs['new']!r} (from {obs['src']!r}, keep {case['keep']}, ins {case['ins']})")]
+        return [("text", ["C03", "C11", "C02", "C05", "C12"], f"model {want!r} impl {obs['new']!r} (from {obs['src']!r}, keep {case['keep']}, ins {case['ins']})")]
     return []
 
 
@@ -262,6 +263,8 @@ def oracle(case, obs):
         d = f"{what}: result {obs['new']!r} holds other elements than the kept and inserted ones {exp}"
         fails.append(("C02", "elements_as_computed", d))
         fails.append(("C05", "fix_applied_all_hold", d))
+        if any('"""' in elem_text(kind, e) or "'''" in elem_text(kind, e) for e in case["elems"]):
+            fails.append(("C12", "nested_string_reads_back", d))
         fails.append(("C03", "valid_python", d))
         fails.append(("C11", "kept_elements_survive", d))
     else:
